@@ -196,8 +196,9 @@ class OptDomain(TagDomain):
 def rule_optimizer_handoff(repo, rep):
   R = 'R-FLOW:optimizer-starts-at-init'
   rep.rule(R, 'NCA / MLKR hand x0 = <initial transformation>.ravel() to '
-           'scipy.optimize.minimize and store the reshaped result.x: with '
-           'zero iterations the result is the documented initialisation')
+           'scipy.optimize.minimize and store the reshaped result.x (the '
+           'zero-iterations clause itself is decided by '
+           'R-API:zero-iterations-return-x0)')
   Rs = 'R-SIB:value-and-gradient-same-sign'
   rep.rule(Rs, 'the callback passed with jac=True returns (value, gradient) '
            'carrying the same sign factor; for NCA the factor is bound to a '
@@ -1119,9 +1120,93 @@ def rule_softmax_objectives(repo, rep):
     rep.unknown(R, 'nca.NCA.fit:mask', site(g), 'mask %s not recognised' % t)
 
 
+def rule_zero_iterations(repo, rep):
+  R = 'R-API:zero-iterations-return-x0'
+  rep.rule(R, 'for max_iter = 0 NCA / MLKR return the initialisation: either '
+           'fit does not call the optimiser under max_iter == 0, or the '
+           'installed scipy L-BFGS-B driver tests its iteration limit before '
+           'the first iteration (decided on the source of '
+           'scipy.optimize._lbfgsb_py._minimize_lbfgsb: a comparison with '
+           'maxiter that precedes the main loop or is not preceded, on its '
+           'path from the loop head, by the iteration counter increment)')
+  import importlib, inspect
+  lib_ok = None
+  detail = ''
+  try:
+    m = importlib.import_module('scipy.optimize._lbfgsb_py')
+    src = inspect.getsource(m._minimize_lbfgsb)
+    tree = ast.parse(__import__('textwrap').dedent(src))
+    fn = tree.body[0]
+    loops = [n for n in ast.walk(fn) if isinstance(n, ast.While)]
+    cmps = [n for n in ast.walk(fn) if isinstance(n, ast.Compare) and
+            any(isinstance(x, ast.Name) and x.id == 'maxiter'
+                for x in ast.walk(n))]
+    if not loops or not cmps:
+      detail = 'main loop / maxiter test not found in the installed scipy'
+    else:
+      lp = loops[0]
+      early = [c for c in cmps if c.lineno < lp.lineno]
+      in_loop = [c for c in cmps if lp.lineno <= c.lineno <= lp.end_lineno]
+      # inside the loop: is the counter incremented before the test in the
+      # same block?
+      guarded_first = False
+      for c in in_loop:
+        st = astutil.stmt_of(lp, c)
+        blk = astutil.parents(lp).get(st)
+        body = None
+        for fld in ('body', 'orelse'):
+          if st in getattr(blk, fld, []):
+            body = getattr(blk, fld)
+        inc_before = body is not None and any(
+            isinstance(x, ast.AugAssign) and isinstance(x.op, ast.Add) and
+            x.lineno < st.lineno for x in body)
+        if not inc_before and blk is lp:
+          guarded_first = True
+      lib_ok = bool(early) or guarded_first
+      detail = 'scipy %s: the only tests of maxiter (%s) follow the ' \
+          'increment of the iteration counter inside the main loop' % (
+              __import__('scipy').__version__,
+              ', '.join('line %d' % c.lineno for c in cmps))
+  except Exception as e:            # source not available
+    detail = 'source of the installed L-BFGS-B driver not available: %s' % e
+  for cname in ('NCA', 'MLKR'):
+    c = repo.get_class(cname)
+    f = repo.resolve_method(c, 'fit')
+    key = cname + '.fit:max_iter=0'
+    calls = [x for x in astutil.calls_in(f.node)
+             if (repo.dotted(f.module, x.func) or '').endswith('.minimize')]
+    if not calls:
+      rep.unknown(R, key, site(f), 'optimiser call not found')
+      continue
+    conds = astutil.path_condition(f.node, calls[0])
+    own_guard = any('max_iter' in c_ and any(
+        t in c_.replace(' ', '') for t in ('>0', '!=0', '>=1'))
+        for c_ in conds)
+    meth = None
+    for n in ast.walk(f.node):
+      if isinstance(n, ast.Constant) and n.value in ('L-BFGS-B', 'l-bfgs-b'):
+        meth = n.value
+    if own_guard:
+      rep.derived(R, key, site(f, calls[0]))
+    elif meth is None:
+      rep.unknown(R, key, site(f, calls[0]), 'optimisation method not '
+                  'identified')
+    elif lib_ok is None:
+      rep.unknown(R, key, site(f, calls[0]), detail)
+    elif lib_ok:
+      rep.derived(R, key, site(f, calls[0]))
+    else:
+      rep.refuted(R, key, site(f, calls[0]), 'minimize(method=L-BFGS-B, '
+                  'options=dict(maxiter=self.max_iter)) is called for '
+                  'max_iter = 0 as well, and the installed driver performs '
+                  'at least one iteration (%s): the result is not the '
+                  'initialisation' % detail)
+
+
 def check(repo, rep, tier):
   rule_lmnn_acceptance(repo, rep)
   rule_optimizer_handoff(repo, rep)
+  rule_zero_iterations(repo, rep)
   rule_self_exclusion(repo, rep)
   rule_stable_softmax(repo, rep)
   rule_lmnn_objective(repo, rep)
